@@ -257,6 +257,34 @@ Theorem c20_refcount_bulk_is_iteration : forall (S_ C_ : nat) (s : rst) (c i : Z
 Proof. exact bulk_is_iteration. Qed.
 Print Assumptions c20_refcount_bulk_is_iteration.
 
+(* c20_null_adoption_cleared: adopting a null pointer (assimilate<T>((T* )0) - legal, `delete (T* )0` is valid) makes the holder
+   non-empty and typed WITHOUT an object (printed: 1, T, 1 = !empty(), type() == typeid(T), extract_raw() == 0); leaving that state by
+   clear() (or surrender(), the destructor, assignment of an empty holder - the model step is the same for the four ways out) yields
+   exactly the state that clear() of the holder's PREVIOUS content yields: the holder is empty, typed access through every type is
+   refused, nothing was constructed or destroyed for the null pointer (an empty holder: the state is unchanged). *)
+Theorem c20_null_adoption_cleared : forall (H M : nat) (tys : list Z) (s : st) (i ty how : Z),
+  okh H i = true -> okty ty = true ->
+  fst (step H M tys s (OAdoptNull i ty how)) = [1; ty; 1] /\
+  snd (step H M tys s (OAdoptNull i ty how)) = p_clear (hslot i) s /\
+  slot (snd (step H M tys s (OAdoptNull i ty how))) (hslot i) = HEmpty /\
+  (forall ty', fst (cast (snd (step H M tys s (OAdoptNull i ty how))) (hslot i) ty') = None) /\
+  (slot s (hslot i) = HEmpty -> snd (step H M tys s (OAdoptNull i ty how)) = s).
+Proof.
+  intros H M tys s i ty how Hi Ht. cbn [step]. rewrite Hi, Ht. cbn [andb fst snd].
+  split; [reflexivity|]. split; [reflexivity|]. split; [apply p_clear_slot_empty|]. split.
+  - intros ty'. unfold cast. rewrite p_clear_slot_empty. reflexivity.
+  - intros E. unfold p_clear. rewrite E. reflexivity.
+Qed.
+Print Assumptions c20_null_adoption_cleared.
+
+Example c20_null_adoption_instance :
+  let s0 := final 1 0 [] [OConsVal 0 4 7] in
+  let s := final 1 0 [] [OConsVal 0 4 7; OAdoptNull 0 9 0; OAdoptNull 0 26 0; OAdoptNull 0 24 1] in
+  okh 1 0 = true /\ okty 9 = true /\ slot s0 (hslot 0) = HHeap 4 1 /\
+  slot s (hslot 0) = HEmpty /\ fst (cast s (hslot 0) 9) = None /\ fst (cast s (hslot 0) 24) = None /\
+  ctor_count (led s) = ctor_count (led s0) /\ dtor_count (led s) = dtor_count (led s0) + 1 /\ err s = false.
+Proof. vm_compute. repeat split; reflexivity. Qed.
+
 (* observation outside the preconditions (client obligation, notes/C20.md): ValueMap::clear() while a NotifiedValue stays bound,
    then a second parse of that option = write through the address of a destroyed object (reproduced on the real code under ASan). *)
 Example c20_observation_notified_value_after_map_clear :
